@@ -71,10 +71,10 @@ func ruleReadySet(c *report.Ctx) {
 			if !isRet || p.ClassifyReturn(r, nil) == an.RetError {
 				continue
 			}
-			d := p.Desc(r.Results[0])
+			d := p.Desc(an.RetOperand(r, 0))
 			// short-circuit && materialises as phi(false | !IsRemoved())
 			if strings.Contains(d, "IsRemoved") && (strings.Contains(d, "false") || strings.Contains(d, "Ready")) {
-				if ph, isPhi := r.Results[0].(*ssa.Phi); isPhi {
+				if ph, isPhi := an.RetOperand(r, 0).(*ssa.Phi); isPhi {
 					for i, e := range ph.Edges {
 						if u, isU := e.(*ssa.UnOp); isU && u.Op == token.NOT {
 							if call, isCall := u.X.(*ssa.Call); isCall && call.Call.StaticCallee() == removed {
